@@ -15,13 +15,13 @@ CHUNK = 2
 RULE = ('Cases: files of 2..8 samples (C07 sample styles, so that some k-mers are private to deleted samples); for n<=5 '
         'every non-empty proper subset is deleted (exhaustive over subsets), random subsets above; names given on the command '
         'line or in a names file (one per line; with/without trailing newline), in place or with -o.  '
-        'The result is compared with a `ska build` of the remaining samples (differential) and with the model.  Refusal cases '
+        'The result is compared with a `ska build` of the remaining samples (differential) and with the model; a quarter of the files first pass through `ska weed --filter-ambig-as-missing` with a one-sample threshold (stored files with a history; model only).  Refusal cases '
         '(unknown name, all names) must exit non-zero and leave the file byte-identical.  Non-trivial: at least one k-mer '
         'disappears or at least two non-adjacent columns are removed; distinct = distinct (k, mode, samples, subset, route).')
 ASSUMPTIONS = ['sample names are [A-Za-z0-9_]+ ; a share of names end in .fa/.fasta to exercise name handling',
                'the build of the remaining samples is a run of the same binary (differential); the model is independent']
 REQUIRED = {t: ['route:cli', 'route:file', 'route:file-no-trailing-newline', 'inplace', 'with-o',
-                'refuse:unknown', 'refuse:all', 'kmers_removed', 'nonadjacent_deletions', 'width64', 'width128']
+                'refuse:unknown', 'refuse:all', 'kmers_removed', 'nonadjacent_deletions', 'width64', 'width128', 'pretreated_files']
             for t in ('quick', 'thorough')}
 
 
@@ -41,6 +41,8 @@ def plan(tier, seed, rng, scale):
                       'exhaustive': ns <= 5 and (tier == 'thorough' or i % 10 == 0), 'seed': rng.getrandbits(32)})
     for i, d in enumerate(descs):
         d['chk'] = (i % 7 == 0)
+        if i % 4 == 2:
+            d['pretreat'] = {2: '0.5', 3: '0.34', 4: '0.25', 5: '0.2', 6: '0.17', 7: '0.15', 8: '0.125'}[d['ns']]
     return descs
 
 
@@ -49,6 +51,13 @@ def run_case(desc, ctx):
     k, rcmode, ns = desc['k'], desc['rc'], desc['ns']
     rng = random.Random(desc['seed'])
     samples = c07.gen_samples(rng, k, ns)
+    for recs in samples:
+        if rng.random() < 0.4:
+            # a second, slightly different copy of a record inside the sample: ambiguity codes in the table
+            src = list(rng.choice(recs))
+            for _ in range(rng.randint(1, 3)):
+                src[rng.randrange(len(src))] = rng.choice('ACGT')
+            recs.append(''.join(src))
     if any(not M.build(r, k, rcmode) for r in samples):
         res.count('degenerate_sample_skipped')
         return res
@@ -74,6 +83,23 @@ def run_case(desc, ctx):
         if p.returncode != 0:
             res.count('setup_build_failed')
             return res
+        Tcur = T
+        pretreated = False
+        if desc.get('pretreat'):
+            # the file first goes through `ska weed --filter-ambig-as-missing` with a one-sample threshold (drops only rows
+            # without any unambiguous base); delete must then treat it like any other stored file
+            pt = ctx.sh(b, 'weed', ctx.path('all.skf'), '--filter-ambig-as-missing', '--min-freq', desc['pretreat'])
+            Tcur = M.t_filter(T, 'no-filter', M.floor_thr(desc['pretreat'], ns), True, False, False)
+            try:
+                _h, Tread = G.nk(ctx, ctx.path('all.skf'), binary=b)
+            except (G.NkFailed, ValueError):
+                Tread = None
+            if pt.returncode != 0 or Tread != Tcur or not Tcur:
+                res.count('pretreatment_not_as_modelled(C10)')
+                return res
+            pretreated = True
+            if variant == 'rel':
+                res.count('pretreated_files')
         original = open(ctx.path('all.skf'), 'rb').read()
         for dn in (subsets if variant == 'rel' else subsets[:2]):
             keep = [i for i in range(ns) if i not in dn]
@@ -117,7 +143,9 @@ def run_case(desc, ctx):
             ctx.write('rest.tsv', ''.join('%s\t%s\n' % (names[i], files[i]) for i in keep))
             pr = G.ska_build(ctx, ctx.path('rest'), ['-f', ctx.path('rest.tsv')], k, rcmode, binary=b)
             hr, Tr = G.nk(ctx, ctx.path('rest.skf'), binary=b)
-            model = M.t_delete(T, set(dn))
+            model = M.t_delete(Tcur, set(dn))
+            if pretreated:
+                Tr, hr = model, dict(hd)          # no `ska build` equivalent of a filtered file: the model alone decides
             bad = []
             if hd.get('names') != [names[i] for i in keep]:
                 bad.append('names %s expected %s' % (hd.get('names'), [names[i] for i in keep]))
@@ -138,7 +166,8 @@ def run_case(desc, ctx):
                             {'samples': samples, 'names': names, 'delete': dn})
                 continue
             if variant == 'rel':
-                removed = len(T) - len(model)
+                removed = len(Tcur) - len(model)
+                res.count('ambiguous_cells_in_files', sum(1 for r in Tcur.values() for x in r if M.is_ambig(x)))
                 res.count('kmers_removed', removed)
                 nonadj = len(dn) >= 2 and any(b2 - a2 > 1 for a2, b2 in zip(dn, dn[1:]))
                 if nonadj:
